@@ -372,6 +372,26 @@ def run(R):
                 diff = {str(k): (got.get(k), want.get(k)) for k in set(got) | set(want) if got.get(k) != want.get(k)}
                 R.violation("C03.lower", "transform_expression|BinaryOperator",
                             "operator literal -> engine operator table deviates (got, expected): %s" % diff, [tf.loc(tarms["BinaryOperator"][0])])
+    # ---- casts: the text handed to ValueType::parse is the operand's own text
+    R.rule("C03.cast", "a cast of a text value parses the operand's text itself: the string given to ValueType::parse in evaluate is, by "
+                       "backward provenance, the String payload of the evaluated operand with no string-transforming call in between")
+    pcs = [c for c in f.calls if short(c.name) == "sqlgrep::model::ValueType::parse"]
+    if "TypeConversion" in arms_:
+        treg = arms_["TypeConversion"][1]
+        pcs_arm = [c for c in pcs if c.bb in treg]
+        if not pcs_arm:
+            R.note("C03.cast: no ValueType::parse call in the TypeConversion arm (text casts are implemented differently); rule not instantiated")
+        for c in pcs_arm:
+            leaves = F.origins(f, c.args[1], depth=16) if len(c.args) > 1 else []
+            mods = sorted(set(short(o.call.name) for o in leaves if o.kind == "call" and not F.TRANSPARENT.search(short(o.call.name))
+                              and short(o.call.name) != EVAL and not re.search(r"ColumnProvider", short(o.call.name))))
+            other = [o for o in leaves if o.kind in ("binop", "unop", "cast", "const")]
+            if mods or other:
+                R.violation("C03.cast", "evaluate|parse-arg", "the text a cast parses is not the operand's own text: it passes through %s - "
+                            "`x::text` would no longer be the identity on text and padded / altered text would convert"
+                            % (", ".join(mods) or [o.kind for o in other]), [c.loc()])
+            else:
+                R.ok("C03.cast", "evaluate|parse-arg", "parse(<payload of the evaluated operand>, unmodified)", c.loc())
     # ---- CASE takes the first true branch; array subscripts are 1-based
     R.rule("C03.case", "CASE evaluates its WHEN clauses in order and returns the THEN value of the first true one, else the ELSE value")
     R.rule("C03.subscript", "array subscripts are 1-based: the element index is the subscript minus the constant 1 (checked), looked up with get()")
